@@ -32,6 +32,59 @@ from seismic_zfp.read import SgzReader
 from seismic_zfp.cropping import SgzCropper
 from seismic_zfp import utils as szutils
 
+# ------------------------------------------------------------------ reaping the converter's worker threads
+# Every conversion leaves its two daemon threads (compressor, writer) blocked in queue.get() for the life of the process.
+# A harness that performs thousands of conversions in one process would run into the system's thread limit ("can't start
+# new thread") -- a failure of the harness, not of the library.  After run_conversion_loop has RETURNED (both joins and
+# the flush are done) the queues it created are given a poison item, on which the blocked threads raise and exit.  The
+# conversion itself is untouched; harnesses that substitute their own Queue/Thread (C16) are left alone.
+import threading as _threading, queue as _queue
+import seismic_zfp.conversion_utils as _cu
+import seismic_zfp.conversion as _conv
+_orig_rcl = _cu.run_conversion_loop
+_POISON = object()
+
+
+class _TrackedQueue(_queue.Queue):
+    created = []
+
+    def __init__(self, *a, **k):
+        super().__init__(*a, **k)
+        _TrackedQueue.created.append(self)
+
+
+def _reaping_run_conversion_loop(*a, **k):
+    if _cu.Queue is not _queue.Queue or os.environ.get('SZV_NO_REAP'):
+        return _orig_rcl(*a, **k)
+    _cu.Queue = _TrackedQueue
+    mark = len(_TrackedQueue.created)
+    try:
+        return _orig_rcl(*a, **k)
+    finally:
+        _cu.Queue = _queue.Queue
+        mine, _TrackedQueue.created[mark:] = _TrackedQueue.created[mark:], []
+        for q in mine:
+            try:
+                q.put_nowait(_POISON)
+            except Exception:
+                pass
+
+
+_prev_excepthook = _threading.excepthook
+
+
+def _quiet_excepthook(args):
+    if args.thread is not None and getattr(args.thread, '_target', None) in (None, _cu.compressor, _cu.writer) and \
+            args.exc_type in (TypeError, ValueError, AttributeError):
+        return          # a reaped worker thread
+    _prev_excepthook(args)
+
+
+_threading.excepthook = _quiet_excepthook
+_cu.run_conversion_loop = _reaping_run_conversion_loop
+if getattr(_conv, 'run_conversion_loop', None) is _orig_rcl:
+    _conv.run_conversion_loop = _reaping_run_conversion_loop
+
 assert os.path.realpath(seismic_zfp.__file__).startswith(os.path.realpath(REPO)), \
     f"seismic_zfp imported from {seismic_zfp.__file__}, expected {REPO}"
 
